@@ -598,7 +598,8 @@ theorem mixture_log_versions_partial :
     EVERY vector (`n ≥ 1`, maximum not the infinity symbol) the result lies below `log Σ_{i<n} exp v_i` by at most
     `n · e^{-500}` (`≈ n · 7e-218`: far below one ulp of any representable result).  Consequently, for positive coefficients
     and EVERY spread of the rates, on `x ≥ μ`: `log esl_hxp_surv − K e^{-500} ≤ esl_hxp_logsurv ≤ log esl_hxp_surv`, and the
-    same for `esl_hxp_logpdf` (finite rates); for the GEV mixture (`MixgevLog.Inside g x`, as in `mixgev_log_versions`, but WITHOUT
+    same for `esl_hxp_logpdf` (finite rates); `esl_hxp_logcdf` within `1e-8 + K e^{-500}` of `log` of the textbook mixture cdf on `x > μ`;
+    for the GEV mixture (`MixgevLog.Inside g x`, as in `mixgev_log_versions`, but WITHOUT
     its window hypothesis): `logcdf`, `logpdf` within `K e^{-500}` below the logarithm of the textbook mixture, `logsurv` within
     `3e-8 + K e^{-500}`. -/
 theorem mixture_log_versions :
@@ -612,6 +613,9 @@ theorem mixture_log_versions :
       (∀ k < h.K, 0 < MixGen.hq h k ∧ 0 < MixGen.hl h k ∧ MixGen.hl h k ≠ (Num.inf : ℝ)) →
       (∀ k < h.K, MixLogGen.entry h (fun l => esl_exp_logpdf x h.mu l) k ≠ (Num.inf : ℝ)) →
       esl_hxp_logpdf x h ≤ log (esl_hxp_pdf x h) ∧ log (esl_hxp_pdf x h) ≤ esl_hxp_logpdf x h + h.K * exp (-500)) ∧
+    (∀ (h : ESL_HYPEREXP ℝ) (x : ℝ), h.mu < x → 1 ≤ h.K → h.K ≤ h.wrk.length → (∀ k < h.K, 0 < MixGen.hq h k ∧ 0 < MixGen.hl h k) →
+      (∀ k < h.K, MixLogGen.entry h (fun l => esl_exp_logcdf x h.mu l) k ≠ (Num.inf : ℝ)) →
+      |esl_hxp_logcdf x h - log (MixGen.hxpCdf h x)| ≤ 1e-8 + h.K * exp (-500)) ∧
     (∀ (g : ESL_MIXGEV ℝ) (x : ℝ), MixgevLog.Inside g x →
       ((∀ k < g.K, MixgevLog.entryG g (fun k => esl_gev_logcdf x (MixGen.gm g k) (MixGen.gl g k) (MixGen.ga g k)) k ≠ (Num.inf : ℝ)) →
         esl_mixgev_logcdf x g ≤ log (MixGen.mixgevCdf g x) ∧ log (MixGen.mixgevCdf g x) ≤ esl_mixgev_logcdf x g + g.K * exp (-500)) ∧
@@ -622,6 +626,7 @@ theorem mixture_log_versions :
   ⟨fun vec _ hn hfin => DLogSumAll.dlogsum_bound vec hn hfin,
     fun _ _ hx hK hw hpos hfin => DLogSumAll.hxp_logsurv_all hx hK hw hpos hfin,
     fun _ _ hx hK hw hpos hfin => DLogSumAll.hxp_logpdf_all hx hK hw hpos hfin,
+    fun _ _ hx hK hw hpos hfin => DLogSumAll.hxp_logcdf_all hx hK hw hpos hfin,
     fun _ _ hi => DLogSumAll.mixgev_log_all hi⟩
 
 /-- non-vacuity: an entry 600 below the maximum is OUTSIDE the window (the round-4 theorem does not apply), the new bound
